@@ -178,15 +178,15 @@ Proof.
   rewrite IH, onto_app. reflexivity.
 Qed.
 
-(* zip: the pairs in order, as many as the shorter list has, for every two lists *)
-Theorem zip_runs tl1 tl2 xs ys st d : is_nil tl1 = true -> is_nil tl2 = true -> has_prelude st -> d + 5 <= MAXD ->
-  exists fuel st' r, eval_loop fuel st zp_body (zp_env (onto xs tl1) (onto ys tl2)) pm d = (st', ROk r) /\ has_prelude st' /\
-                     strip r = strip (vec_to_list (map pair_of (combine xs ys))).
+(* zip's body with explicit fuel *)
+Lemma zip_runs_fuel tl1 tl2 xs ys g st d : is_nil tl1 = true -> is_nil tl2 = true -> has_prelude st -> d + 5 <= MAXD ->
+  exists st' r, eval_loop (3 * List.length xs + 2 * List.length (combine xs ys) + 36 + g) st zp_body (zp_env (onto xs tl1) (onto ys tl2)) pm d = (st', ROk r) /\
+                has_prelude st' /\ strip r = strip (vec_to_list (map pair_of (combine xs ys))).
 Proof.
   intros Ht1 Ht2 Hg Hd.
   set (M := fold_left (fun a p => VCons (VCons (fst p) (snd p)) a) (combine xs ys) nil_value).
   set (KK := (3 * List.length xs + 22)%nat).
-  destruct (loop_closure KK (2 * List.length (combine xs ys) + 13) st zp_body (zp_env (onto xs tl1) (onto ys tl2)) d (match forms_of zp_body with z :: _ => z | _ => VNil end)
+  destruct (loop_closure KK (2 * List.length (combine xs ys) + 13 + g) st zp_body (zp_env (onto xs tl1) (onto ys tl2)) d (match forms_of zp_body with z :: _ => z | _ => VNil end)
               [zp_inner] [M] reverse_val false false
               (let '(ps, _, _, _) := reverse_parts in ps) rv_body (let '(_, _, e, _) := reverse_parts in e) pm
               (rv_env M) Hg eq_refl eq_refl) as (st1 & Hg1 & Hcall).
@@ -196,11 +196,21 @@ Proof.
   - reflexivity.
   - unfold M in *. rewrite zipped_is_onto in *.
     assert (Hnil : is_nil nil_value = true) by reflexivity.
-    destruct (reverse_runs (rev (map pair_of (combine xs ys))) nil_value KK st1 d Hnil Hg1 ltac:(lia)) as (st2 & r & Hrun & Hg2 & Hr).
-    exists (S (KK + (2 * List.length (combine xs ys) + 13))), st2, r. split; [|split; [exact Hg2|]].
-    + rewrite Hcall. replace (KK + (2 * List.length (combine xs ys) + 13))%nat with (2 * List.length (rev (map pair_of (combine xs ys))) + 13 + KK)%nat by (rewrite rev_length, map_length; lia).
+    destruct (reverse_runs (rev (map pair_of (combine xs ys))) nil_value (KK + g)%nat st1 d Hnil Hg1 ltac:(lia)) as (st2 & r & Hrun & Hg2 & Hr).
+    exists st2, r. split; [|split; [exact Hg2|]].
+    + replace (3 * List.length xs + 2 * List.length (combine xs ys) + 36 + g)%nat with (S (KK + (2 * List.length (combine xs ys) + 13 + g))) by (unfold KK; lia).
+      rewrite Hcall. replace (KK + (2 * List.length (combine xs ys) + 13 + g))%nat with (2 * List.length (rev (map pair_of (combine xs ys))) + 13 + (KK + g))%nat by (rewrite rev_length, map_length; lia).
       exact Hrun.
     + rewrite Hr, strip_fold_cons, rev_involutive. reflexivity.
+Qed.
+
+(* zip: the pairs in order, as many as the shorter list has, for every two lists *)
+Theorem zip_runs tl1 tl2 xs ys st d : is_nil tl1 = true -> is_nil tl2 = true -> has_prelude st -> d + 5 <= MAXD ->
+  exists fuel st' r, eval_loop fuel st zp_body (zp_env (onto xs tl1) (onto ys tl2)) pm d = (st', ROk r) /\ has_prelude st' /\
+                     strip r = strip (vec_to_list (map pair_of (combine xs ys))).
+Proof.
+  intros Ht1 Ht2 Hg Hd. destruct (zip_runs_fuel tl1 tl2 xs ys 0%nat st d Ht1 Ht2 Hg Hd) as (st' & r & H).
+  eexists. exists st', r. exact H.
 Qed.
 
 Example zip_instance : forall st d, has_prelude st -> d + 5 <= MAXD ->
